@@ -49,6 +49,7 @@ Lemma declare_unfold st s0 decl name :
 Proof. reflexivity. Qed.
 
 Definition a_declare_at (a : astate) (pre : list frame) (tgt : frame) (post : list frame) (decl x : Z) : aout :=
+  if existsb (fun e => fst e =? x) (firstn (fnfor tgt) (fdecl tgt)) then AStuck else
   match a_find_decl tgt x with
   | Some (_, kk) =>
       if kk =? ExprDecl then AStuck
@@ -84,7 +85,7 @@ Proof. reflexivity. Qed.
 (* ---- the walk ------------------------------------------------------------------------------------------ *)
 Lemma walk_sim st home decl x :
   forall stk fuel,
-    stack_ok st stk -> (forall s, In s stk -> nfordecls (sc_of st s) = 0) -> (length stk <= fuel)%nat ->
+    stack_ok st stk -> (length stk <= fuel)%nat ->
     match a_walk (map (frame_of st home) stk) decl x with
     | None => True
     | Some None => declare_walk fuel st (hd O stk) decl x = Ok None
@@ -94,21 +95,21 @@ Lemma walk_sim st home decl x :
           declare_walk fuel st (hd O stk) decl x = Ok (Some t)
     end.
 Proof.
-  induction stk as [|s rest IH]; intros fuel Hstack Hfor Hfuel; [exact I|].
+  induction stk as [|s rest IH]; intros fuel Hstack Hfuel; [exact I|].
   destruct fuel as [|f]; [cbn in Hfuel; lia|].
   assert (Hsn : (s < nscopes st)%nat) by (apply Hstack).
   cbn [map a_walk hd declare_walk]. rewrite (sget_valid st s Hsn). cbn [rbind].
   change (fisfunc (frame_of st home s)) with (opt_nat_eqb (sfunc (sc_of st s)) s).
   destruct (opt_nat_eqb (sfunc (sc_of st s)) s) eqn:Ef.
   - exists [], s, rest. repeat split; reflexivity.
-  - rewrite a_find_decl_frame. rewrite (find_declared_nofor st (sc_of st s) x false (Hfor s (or_introl eq_refl))).
+  - rewrite a_find_decl_frame. rewrite (find_declared_noskip st (sc_of st s) x).
     destruct (find (fun v => vname (vget st v) =? x) (rev (sdeclared (sc_of st s)))) as [v|] eqn:Efind; cbn [option_map nk].
     + destruct (negb (vdecl (vget st v) =? decl) && negb (vdecl (vget st v) =? CatchDecl)) eqn:Ec.
       * reflexivity.
       * destruct rest as [|q rest'].
         -- cbn. exact I.
         -- destruct Hstack as (_ & Hpar & _ & Hrest). rewrite Hpar.
-           specialize (IH f Hrest (fun s' Hs' => Hfor s' (or_intror Hs')) ltac:(cbn in *; lia)).
+           specialize (IH f Hrest ltac:(cbn in *; lia)).
            cbn [hd] in IH.
            destruct (a_walk (map (frame_of st home) (q :: rest')) decl x) as [[[[pre tgt] post]|]|].
            ++ destruct IH as (spre & t & spost & E1 & E2 & E3 & E4 & E5).
@@ -118,7 +119,7 @@ Proof.
     + destruct rest as [|q rest'].
       * cbn. exact I.
       * destruct Hstack as (_ & Hpar & _ & Hrest). rewrite Hpar.
-        specialize (IH f Hrest (fun s' Hs' => Hfor s' (or_intror Hs')) ltac:(cbn in *; lia)).
+        specialize (IH f Hrest ltac:(cbn in *; lia)).
         cbn [hd] in IH.
         destruct (a_walk (map (frame_of st home) (q :: rest')) decl x) as [[[[pre tgt] post]|]|].
         -- destruct IH as (spre & t & spost & E1 & E2 & E3 & E4 & E5).
